@@ -344,7 +344,7 @@ func (ex *Exec) emittedGet(st *State, et types.Type) string {
 		return cur
 	}
 	ex.vc.heapT[key] = heapComp{sort: srt}
-	n := ex.initialComp(key)
+	n := ex.initialCompIn(st, key)
 	st.ghost[key] = n
 	return n
 }
